@@ -13,6 +13,10 @@ mod ts;
 fn main() -> anyhow::Result<()> {
     let args: Vec<String> = std::env::args().collect();
     std::panic::set_hook(Box::new(|_| {}));
+    // in-process runs build one tokio runtime per case: four workers each (the binary is run with 1 / 4 / 16 workers separately)
+    if std::env::var_os("TOKIO_WORKER_THREADS").is_none() {
+        unsafe { std::env::set_var("TOKIO_WORKER_THREADS", "4"); }
+    }
     let a = core::parse_args(&args[2.min(args.len())..]);
     match args.get(1).map(String::as_str) {
         Some("tables") => tables::run(&args[2..]),
